@@ -239,6 +239,8 @@ def _is_popcount(t, of, se=None):
     """t == bin(of).count('1') or of.bit_count(), or the result of the clear-lowest-set-bit counting loop over a non-negative `of`."""
     if t[0] == "loopout" and se is not None:
         return _kernighan(se, t[1], t[2], of)
+    if t[0] == "call" and t[2] == ("builtin", "sum") and len(t[3]) == 1 and not t[4] and se is not None and t[3][0][0] == "comp" and len(t[3][0]) == 4:
+        return _bit_sum(se, t[3][0], of)
     if t[0] != "call" or t[2][0] != "attr":
         return False
     recv, meth = t[2][1], t[2][2]
@@ -246,6 +248,43 @@ def _is_popcount(t, of, se=None):
         return recv[3][0] == of
     if meth == "bit_count" and not t[3]:
         return recv == of
+    return False
+
+
+def _bit_sum(se, comp, of) -> bool:
+    """sum((of >> k) & 1 for k in range(W)) with W at least the width of `of` (an extraction masked to w bits): every bit is examined once."""
+    info = se.loop_info.get(comp[3]) or {}
+    it = info.get("iter")
+    if info.get("conds") or it is None:
+        return False
+    elem = ("elem", it, comp[3])
+    e = comp[2]
+    if e[0] == "cmp" and e[1] == "!=" and e[3] == ("const", 0):
+        e = e[2]
+    okb = e in (("bin", "&", ("bin", ">>", of, elem), ("const", 1)), ("bin", "&", ("const", 1), ("bin", ">>", of, elem)))
+    if not okb:
+        return False
+    # width of the extraction: of == X & (2^w - 1)
+    w = None
+    if of[0] == "bin" and of[1] == "&":
+        for k in (of[2], of[3]):
+            if is_const(k) and isinstance(k[1], int) and k[1] >= 0 and (k[1] + 1) & k[1] == 0:
+                w = ("const", k[1].bit_length())
+            elif k[0] == "bin" and k[1] == "-" and k[3] == ("const", 1) and k[2][0] == "bin" and k[2][1] == "<<" and k[2][2] == ("const", 1):
+                w = k[2][3]
+            elif k[0] == "un" and k[1] == "~" and k[2][0] == "bin" and k[2][1] == "<<" and k[2][2] == ("const", -1):
+                w = k[2][3]
+    if w is None:
+        return False
+    if is_const(it) and isinstance(it[1], range):
+        return it[1].step == 1 and it[1].start == 0 and is_const(w) and it[1].stop >= w[1]
+    if it[0] == "call" and it[2] == ("builtin", "range") and not it[4]:
+        a = it[3]
+        lo, hi = (("const", 0), a[0]) if len(a) == 1 else (a[0], a[1])
+        if len(a) == 3 and a[2] != ("const", 1):
+            return False
+        pw, ph = to_poly(w), to_poly(hi)
+        return lo == ("const", 0) and pw is not None and ph is not None and pw == ph
     return False
 
 
